@@ -98,8 +98,35 @@ def _tail(stmts, make):
                 return out, rret or _raises(body + rest)
             out.append(s)
             continue
+        if isinstance(s, (ast.For, ast.While)) and not s.orelse and any(isinstance(n, ast.Return) for n in ast.walk(s)):
+            # a loop that is left by 'return': the return becomes 'result = value; break', what follows the loop runs only
+            # when the loop was NOT left that way, i.e. it is the loop's else clause
+            if any(isinstance(n, ast.Break) for n in ast.walk(s)) or any(
+                    isinstance(n, (ast.For, ast.While, ast.Try, ast.With)) and any(isinstance(r, ast.Return) for r in ast.walk(n)) for b_ in s.body for n in ast.walk(b_)):
+                raise NotInlinable("return inside a nested loop / a loop that also breaks")
+
+            def in_loop(stmts_):
+                res = []
+                for x in stmts_:
+                    if isinstance(x, ast.Return):
+                        res.extend(make(x))
+                        res.append(ast.copy_location(ast.Break(), x))
+                        return res
+                    if isinstance(x, ast.If):
+                        new_if = ast.If(test=x.test, body=in_loop(x.body) or [ast.Pass()], orelse=in_loop(x.orelse))
+                        res.append(ast.copy_location(new_if, x))
+                    else:
+                        res.append(x)
+                return res
+
+            rest, rret = _tail(stmts[i + 1:], make)
+            new_loop = copy.copy(s)
+            new_loop.body = in_loop(s.body)
+            new_loop.orelse = rest
+            out.append(new_loop)
+            return out, rret
         if any(isinstance(n, ast.Return) for n in ast.walk(s)):
-            raise NotInlinable("return inside a loop / try / with")
+            raise NotInlinable("return inside a try / with")
         out.append(s)
     return out, _raises(out)
 
